@@ -55,7 +55,7 @@ def run(res, args):
         elif k < 0.75:
             lid, doc, needforce = tg.doc(); doc = wbgen.mutate(rng, doc); force = lid if needforce else rng.choice([0, lid]); dist['grammar-mutation'] += 1
         elif k < 0.90:
-            doc = wbgen.syncml_doc(d, rng, inner); force = 0; dist['syncml'] += 1
+            doc = wbgen.syncml_doc(d, rng, inner) if rng.random() < 0.85 else wbgen.literal_syncml_shape(d, rng)[1]; force = 0; dist['syncml'] += 1
             if rng.random() < 0.2:
                 doc = wbgen.mutate(rng, doc)
         else:
@@ -96,8 +96,8 @@ def run(res, args):
     # optional arguments given as NULL
     nstart = len(lines)
     nulls = []
-    for name, doc in docs[:40] + [('bad', b'\x03\x05'), ('bad2', b'\x00')]:
-        for mode in (0, 1):
+    for name, doc in docs[:40] + [('bad', b'\x03\x05'), ('bad2', b'\x00'), ('unknown-lang', bytes([3, 1, 0x6a, 0, 5])), ('truncated', docs[0][1][:len(docs[0][1]) // 2]), ('bad-charset', bytes([3, 5, 4, 0, 0x45, 3, 0xe9, 0, 1]))]:
+        for mode in (0, 1, 2):
             nulls.append((f'W2XN {mode} {doc.hex()}', f'W2X 0 0 1 0 0 {doc.hex()}'))
     impl, inc_i = corr.run_lines(h, lines + [a for a, _ in nulls], env=b.env(), timeout=900)
     model, inc_m = corr.run_lines(drv, lines + [m for _, m in nulls], timeout=900)
